@@ -25,6 +25,7 @@ type Engine struct {
 	specs   map[string]*FuncSpec     // display name -> spec  (funcs)
 	ifaces  map[string]*FuncSpec     // "pkg.Iface.Method" -> spec
 	fields  map[string]*FuncSpec     // "pkg.Struct.field" -> spec of func-typed field
+	externs map[string]*FuncSpec     // model name of an external function -> assumed contract
 	pures   map[string]*PureFunc
 	preds   map[string]*PredDecl
 	ghosts  map[string]*GhostVar
@@ -87,7 +88,7 @@ func loadEngine(repo string, specDir string) (*Engine, error) {
 	e := &Engine{
 		repo: repo, prog: prog,
 		pkgs: map[string]*ssa.Package{}, tpkgs: map[string]*types.Package{},
-		funcs: map[string]*ssa.Function{}, specs: map[string]*FuncSpec{}, ifaces: map[string]*FuncSpec{}, fields: map[string]*FuncSpec{},
+		funcs: map[string]*ssa.Function{}, specs: map[string]*FuncSpec{}, ifaces: map[string]*FuncSpec{}, fields: map[string]*FuncSpec{}, externs: map[string]*FuncSpec{},
 		pures: map[string]*PureFunc{}, preds: map[string]*PredDecl{}, ghosts: map[string]*GhostVar{},
 		locks: map[string]*LockInv{}, chans: map[string]*ChanInv{}, atomics: map[string]*ChanInv{},
 		sentinelOf: map[string]string{}, writeSets: map[*ssa.Function]writeSetT{}, assumptions: map[string]bool{},
@@ -250,6 +251,10 @@ func (e *Engine) loadSpecs() error {
 				}
 				fs.Target = name
 				e.ifaces[name] = fs
+			case "extern":
+				// assumed contract of an external (dependency) function, keyed by its model name,
+				// e.g. (*github.com/ipfs/go-datastore/keytransform.Datastore).Get
+				e.externs[fs.Target] = fs
 			case "field":
 				name := fs.Target
 				if strings.Count(name, ".") == 1 {
